@@ -102,6 +102,10 @@ impl<'a> LTr<'a> {
                         return Ok(("none".into(), LTy::Unknown));
                     }
                 }
+                if segs.len() >= 2 && segs[segs.len() - 2] == "path" && segs[segs.len() - 1] == "MAIN_SEPARATOR" {
+                    // `std::path::MAIN_SEPARATOR` (Unix host)
+                    return Ok(("Rs.Path.MAIN_SEPARATOR".into(), LTy::Int("Char".into())));
+                }
                 if segs.len() == 2 {
                     if let Some(vs) = self.lreg.enums.get(&segs[0]) {
                         if vs.iter().any(|(v, tys)| *v == segs[1] && tys.is_empty()) {
@@ -128,6 +132,9 @@ impl<'a> LTr<'a> {
                     let n = path_ident(&u.expr).ok_or("deref")?;
                     if self.deref_var.as_deref() == Some(&n) || self.deref_ro.contains(&n) {
                         Ok((n, self.int("UInt8")))
+                    } else if self.ref_vars.contains(&n) {
+                        let t = self.vars.get(&n).cloned().ok_or("deref")?;
+                        Ok((n, t))
                     } else {
                         Err("deref of a reference".into())
                     }
@@ -145,6 +152,12 @@ impl<'a> LTr<'a> {
             Expr::Binary(b) => self.binary(b),
             Expr::Index(ix) => {
                 let (base, bt) = self.expr(&ix.expr)?;
+                if bt == LTy::Str {
+                    return match &*ix.index {
+                        Expr::Range(r) => Ok((self.str_slice_of(&base, r)?, LTy::Str)),
+                        _ => Err("index on a str".into()),
+                    };
+                }
                 if bt != LTy::Bytes {
                     return Err("index on a non-byte container".into());
                 }
@@ -169,6 +182,13 @@ impl<'a> LTr<'a> {
                 self.expr(&Expr::Repeat(r))
             }
             Expr::Tuple(t) if t.elems.is_empty() => Ok(("()".into(), LTy::Unit)),
+            Expr::Macro(m) if path_last(&m.mac.path) == "matches" => self.matches_macro(&m.mac),
+            Expr::Match(m) => {
+                // a `match` in operand position: its value is bound first
+                let t = self.fresh();
+                let ty = self.match_arms(m, Some(&format!("let {t}")))?;
+                Ok((t, ty))
+            }
             Expr::Struct(s) => self.struct_lit(s),
             Expr::MethodCall(m) => self.method_call(m),
             Expr::Call(c) => self.call(c),
@@ -371,6 +391,15 @@ impl<'a> LTr<'a> {
                 self.store(p, s)?;
                 return Ok((r, LTy::Io(Box::new(LTy::Unit))));
             }
+            if p.ty == LTy::Path && name == "push" && args.len() == 1 {
+                // `PathBuf::push` (named parameter)
+                let (v, t) = self.expr(args[0])?;
+                if t != LTy::Path && t != LTy::Str {
+                    return Err("PathBuf::push of something that is not a path or a str".into());
+                }
+                self.store(p, format!("(Rs.PathOps.push {} {v})", p.term()))?;
+                return Ok(("()".into(), LTy::Unit));
+            }
             if p.ty == LTy::Bytes && name == "extend_from_slice" && args.len() == 1 {
                 let (v, _) = self.expr(args[0])?;
                 self.store(p, format!("({} ++ {v})", p.term()))?;
@@ -399,6 +428,11 @@ impl<'a> LTr<'a> {
             Some(p) => (p.term(), p.ty.clone()),
             None => self.expr(&m.receiver)?,
         };
+        // a method of `T` called on a `Cow<T>`: auto-deref (`&*cow`), read-only
+        let (recv, rty, recv_place) = match rty {
+            LTy::Cow(inner) => (format!("(Rs.Cow.get {recv})"), *inner, None),
+            t => (recv, t, recv_place),
+        };
         match (&rty, name.as_str()) {
             (LTy::Io(inner), "expect") | (LTy::Io(inner), "unwrap") if args.len() == (name == "expect") as usize => {
                 let v = self.opt_tmp(&format!("Rs.IoRes.unwrap {recv}"));
@@ -411,7 +445,7 @@ impl<'a> LTr<'a> {
             (LTy::Bytes, "is_empty") if args.is_empty() => return Ok((format!("(Rs.isEmpty {recv})"), LTy::Bool)),
             (LTy::Bytes, "into_bytes") if args.is_empty() => return Ok((recv, LTy::Bytes)),
             (LTy::Bytes, "len") if args.is_empty() => return Ok((format!("(Rs.len {recv})"), self.int("UInt64"))),
-            (LTy::Bytes, "contains") if args.len() == 1 => {
+            (LTy::Str, "contains") if args.len() == 1 => {
                 // `s.contains(c)` with an ASCII `char` literal: in UTF-8 its byte occurs only as that char
                 if let Expr::Lit(ExprLit { lit: Lit::Char(c), .. }) = args[0] {
                     if (c.value() as u32) < 0x80 {
@@ -420,8 +454,31 @@ impl<'a> LTr<'a> {
                 }
                 return Err("contains(..) with something other than an ASCII char literal".into());
             }
-            (LTy::Bytes, "components") if args.is_empty() => {
+            (LTy::Path, "components") if args.is_empty() => {
                 return Ok((format!("(Rs.PathOps.components {recv})"), LTy::List(Box::new(LTy::Ext("Rs.Component".into())))));
+            }
+            (LTy::Str, "find") if args.len() == 1 => {
+                // `s.find(c)` with an ASCII `char` literal: the byte index of its first occurrence
+                if let Expr::Lit(ExprLit { lit: Lit::Char(c), .. }) = args[0] {
+                    if (c.value() as u32) < 0x80 {
+                        return Ok((format!("(Rs.Str.findAscii {recv} {})", c.value() as u32), LTy::Opt(Box::new(self.int("UInt64")))));
+                    }
+                }
+                return Err("find(..) with something other than an ASCII char literal".into());
+            }
+            (LTy::Str, "to_string") if args.is_empty() => return Ok((recv, LTy::Str)),
+            (LTy::Int(c), "to_string") if args.is_empty() && c == "Char" => return Ok((format!("(Rs.Str.ofChar {recv})"), LTy::Str)),
+            (LTy::Str, "replace") if args.len() == 2 => {
+                let (a, at) = self.expr(args[0])?;
+                let (b, bt) = self.expr(args[1])?;
+                if at != LTy::Str || bt != LTy::Str {
+                    return Err("replace(..) with a pattern that is not a str".into());
+                }
+                return Ok((format!("(Rs.Str.replace {recv} {a} {b})"), LTy::Str));
+            }
+            (LTy::List(elem), "filter") if args.len() == 1 => {
+                let elem = (**elem).clone();
+                return self.filter(&recv, &elem, args[0]);
             }
             (LTy::List(elem), "fold") if args.len() == 2 => {
                 let elem = (**elem).clone();
@@ -638,10 +695,14 @@ impl<'a> LTr<'a> {
         if segs.len() >= 2 && segs[segs.len() - 2] == "Path" && last == "new" && args.len() == 1 {
             // `Path::new(s)`: the same bytes
             let (v, t) = self.expr(args[0])?;
-            if t != LTy::Bytes {
+            if t != LTy::Str && t != LTy::Path {
                 return Err("Path::new of a non-string".into());
             }
-            return Ok((v, LTy::Bytes));
+            return Ok((v, LTy::Path));
+        }
+        if segs.len() >= 2 && segs[segs.len() - 2] == "PathBuf" && last == "new" && args.is_empty() {
+            // `PathBuf::new()`: the empty path
+            return Ok(("([] : Bytes)".into(), LTy::Path));
         }
         if segs.len() == 1 && last == "Some" && args.len() == 1 {
             let (v, t) = self.expr(args[0])?;
